@@ -55,6 +55,7 @@ type hammerWant struct {
 	ja3ok, ja4ok bool
 	h2param      *fingerprint.HTTP2FingerprintParam
 	req          *http.Request
+	gone         *http.Request // the same connection's request, cancelled by its client before the injectors run
 }
 
 func execHammer(s HammerScript) *vstat.Violation {
@@ -74,10 +75,15 @@ func execHammer(s HammerScript) *vstat.Violation {
 		if err != nil {
 			continue
 		}
-		ctx, md := metadata.NewContext(context.Background())
+		// (request contexts of a server can be cancelled; this one never is while the case runs)
+		live, stop := context.WithCancel(context.Background())
+		defer stop()
+		ctx, md := metadata.NewContext(live)
 		md.ClientHelloRecord = rec
 		req, _ := http.NewRequestWithContext(ctx, "GET", "https://example.com/", nil)
-		w := hammerWant{md: md, req: req, h2param: h2param}
+		cctx, cancel := context.WithCancel(ctx)
+		cancel()
+		w := hammerWant{md: md, req: req, gone: req.WithContext(cctx), h2param: h2param}
 		// expected values: the references; a connection for which the function under test fails on its own
 		// (C01's/C02's business) is still useful - it must keep failing, never borrow a neighbour's value
 		w.ja3, w.ja4 = hello.JA3(p), hello.JA4(p)
@@ -147,6 +153,13 @@ func execHammer(s HammerScript) *vstat.Violation {
 					n++
 					var v4, v3, v2 string
 					var e4, e3, e2 error
+					if wk%4 == 3 && (r+k)%3 == 0 {
+						// a request of this connection that its client has already cancelled (RST_STREAM right behind
+						// HEADERS, a disconnect): whatever the injectors make of it, nobody else may notice
+						inj4.GetHeaderValue(c.gone)
+						inj3.GetHeaderValue(c.gone)
+						inj2.GetHeaderValue(c.gone)
+					}
 					if wk%2 == 1 {
 						v4, e4 = inj4.GetHeaderValue(c.req)
 						v3, e3 = inj3.GetHeaderValue(c.req)
